@@ -267,3 +267,155 @@ func (c *Ctx) sortContract(fn *ssa.Function, ia *ssa.IndexAddr) bool {
 	}
 	return false
 }
+
+// T-PROGRESS: every loop of the lexer and the parser consumes input on every
+// iteration (or leaves), and the evaluator only recurses into strictly
+// smaller nodes — necessary conditions of "always returns".
+func init() { register("T-PROGRESS", ruleProgress) }
+
+func ruleProgress(c *Ctx) *RuleResult {
+	r := &RuleResult{Doc: "termination, structural part: every cycle in a lexer loop passes a call of next() (the cursor advances or eof is returned and tested), every cycle in a parser loop passes advance()/match()/a parse function (each parse function advances before it can loop), and no evaluator case evaluates its own node again", Floor: 8}
+	next := c.lexerNext()
+	isProgress := func(fn *ssa.Function, call *ssa.Call) bool {
+		sc := staticCallee(call)
+		if sc == nil {
+			return false
+		}
+		if c.file(fn.Pos()) == "lexer.go" {
+			return sc == next
+		}
+		return sc == c.A.Advance || sc == c.A.Match || (c.movesCursor(sc) && sc != c.A.Advance)
+	}
+	for _, fn := range allFuncs(c.SLib) {
+		f := c.file(fn.Pos())
+		if f != "lexer.go" && f != "parser.go" {
+			continue
+		}
+		n := 0
+		for _, h := range fn.Blocks {
+			back := false
+			for _, p := range h.Preds {
+				if h.Dominates(p) {
+					back = true
+				}
+			}
+			if !back {
+				continue
+			}
+			n++
+			r.Instances++
+			key := fmt.Sprintf("%s|loop#%d", fname(fn), n)
+			// remove blocks that contain a progress call; can h still reach itself inside the loop?
+			prog := map[*ssa.BasicBlock]bool{}
+			for _, b := range fn.Blocks {
+				for _, in := range b.Instrs {
+					if call, ok := in.(*ssa.Call); ok && isProgress(fn, call) {
+						prog[b] = true
+					}
+				}
+			}
+			pos := "-"
+			for _, in := range h.Instrs {
+				if p := instrPos(in); p.IsValid() {
+					pos = c.pos(p)
+					break
+				}
+			}
+			if prog[h] {
+				r.ok(key, pos, fname(fn), "the loop header itself consumes input")
+				continue
+			}
+			if isCountedRange(h) {
+				r.ok(key, pos, fname(fn), "a range loop over a slice: bounded by its length")
+				continue
+			}
+			cyc := false
+			seen := map[*ssa.BasicBlock]bool{}
+			var walk func(b *ssa.BasicBlock)
+			walk = func(b *ssa.BasicBlock) {
+				for _, s := range b.Succs {
+					if s == h {
+						cyc = true
+						return
+					}
+					if seen[s] || prog[s] || !h.Dominates(s) {
+						continue
+					}
+					seen[s] = true
+					walk(s)
+				}
+			}
+			walk(h)
+			if cyc {
+				r.viol(key, pos, fname(fn), "a cycle of this loop consumes no input: the function may not terminate")
+			} else {
+				r.ok(key, pos, fname(fn), "every cycle passes a call that consumes input")
+			}
+		}
+	}
+	// parse functions advance before recursing: parseExpression's first call is advance (after reading the token)
+	{
+		fn := c.A.ParseExpr
+		r.Instances++
+		okAdv := false
+		for _, in := range fn.Blocks[0].Instrs {
+			if call, ok := in.(*ssa.Call); ok {
+				sc := staticCallee(call)
+				if sc == c.A.Advance {
+					okAdv = true
+					break
+				}
+				if sc != c.A.LookTok && sc != c.A.Current && sc != c.A.Lookahead {
+					break
+				}
+			}
+		}
+		if okAdv {
+			r.ok("parseExpression-advances", c.pos(fn.Pos()), fname(fn), "parseExpression consumes a token before anything can recurse into it")
+		} else {
+			r.viol("parseExpression-advances", c.pos(fn.Pos()), fname(fn), "parseExpression can recurse without consuming a token")
+		}
+	}
+	return r
+}
+
+// isCountedRange: h is the header of a `for i := range s` loop as go/ssa
+// lowers it: i' = phi(-1, i')+1; if i' < len(s).
+func isCountedRange(h *ssa.BasicBlock) bool {
+	ifi := blockIf(h)
+	if ifi == nil {
+		return false
+	}
+	bo, ok := ifi.Cond.(*ssa.BinOp)
+	if !ok || bo.Op != token.LSS {
+		return false
+	}
+	call, ok := bo.Y.(*ssa.Call)
+	if !ok {
+		return false
+	}
+	if bi, ok := call.Call.Value.(*ssa.Builtin); !ok || bi.Name() != "len" {
+		return false
+	}
+	add, ok := bo.X.(*ssa.BinOp)
+	if !ok || add.Op != token.ADD {
+		return false
+	}
+	if k, ok := constInt(add.Y); !ok || k != 1 {
+		return false
+	}
+	ph, ok := add.X.(*ssa.Phi)
+	if !ok || ph.Block() != h {
+		return false
+	}
+	for _, e := range ph.Edges {
+		if k, ok := constInt(e); ok && k == -1 {
+			continue
+		}
+		if e == add {
+			continue
+		}
+		return false
+	}
+	return true
+}
